@@ -210,7 +210,7 @@ ASSUME_P = [
 ]
 
 
-def corpus(run, kinds, with_templates=False, rec_templates=0):
+def corpus(run, kinds, with_templates=False, rec_templates=0, all_templates=False):
     g = G.Gen(vc.seed() * 7919 + 17)
     out = []
     if rec_templates:
@@ -221,13 +221,13 @@ def corpus(run, kinds, with_templates=False, rec_templates=0):
         out.extend((t, "rec") for t in rt)
     if with_templates:
         ts = G.templates()
-        if len(ts) > run.cfg["n_templates"]:
+        if len(ts) > run.cfg["n_templates"] and not all_templates:
             # stratified: every step-th template (the families are laid out contiguously), offset by the seed
             step = -(-len(ts) // run.cfg["n_templates"])
             ts = ts[vc.seed() % step::step]
         out.extend((t, "template") for t in ts)
         st = G.string_templates()
-        if run.tier == "quick":
+        if run.tier == "quick" and not all_templates:
             st = st[vc.seed() % 2::2]
         out.extend((t, "template") for t in st)
     n = run.cfg["n_seeded"]
@@ -424,7 +424,7 @@ def key_c01(program, kind, rep, plan):
 
 def run_c01(run):
     for program, kind in corpus(run, ["flat", "shared", "rec", "twins", "rec", "agg", "mutual", "flat", "rec"], with_templates=True,
-                                rec_templates=32):
+                                rec_templates=200, all_templates=True):
         if run.out_of_time():
             break
         check_vs_reference(run, program, kind, [P.DEFAULT_CFG], key_c01)
@@ -620,7 +620,7 @@ def run_c02(run):
         diff = [P.CFG_NAMES[i] for i in range(5) if a[i] != b[i]]
         return "config-" + kind + "-" + "+".join(diff)
     for program, kind in corpus(run, ["flat", "shared", "twins", "rec", "agg", "twins", "flat", "rec", "shared"], with_templates=True,
-                                rec_templates=32 if run.tier == "thorough" else 4):
+                                rec_templates=200 if run.tier == "thorough" else 20):
         if run.out_of_time():
             break
         text = R.render(program)
@@ -668,7 +668,12 @@ def run_c03(run):
 
 def run_c04(run):
     rnd = random.Random(vc.seed() + 5)
-    progs = [(t, "flat") for t in G.order_templates()] + corpus(run, ["flat", "rec", "shared", "twins", "agg", "rec", "mutual"])
+    # bound recursive queries (magic sets leave seed relations behind in the engine): a stride of the fixed family
+    mq = [t for t in G.rec_templates() if t["query"] == "__query__"]
+    if run.tier == "quick":
+        mq = mq[vc.seed() % 4::4]
+    progs = [(t, "flat") for t in G.order_templates()] + [(t, "rec") for t in mq] + \
+        corpus(run, ["flat", "rec", "shared", "twins", "agg", "rec", "mutual"])
     prev_text = None
     for program, kind in progs:
         if run.out_of_time():
